@@ -231,6 +231,16 @@ class ValueGen:
 			if depth >= 2:
 				length = min(length, 2)
 			elements = [self.value(kind['elem'], depth + 1) for _ in range(length)]
+			if kind['align'] and elements and self.rng.random() < 0.6:
+				# boundary of the padding rule: make the last element's size a multiple of the alignment (no padding needed)
+				for _ in range(60):
+					try:
+						if 0 == self.net.to_obj(kind['elem'], elements[-1]).size % kind['align']:
+							self.hit(f'aligned-last:{type_name}.{field["name"]}:multiple')
+							break
+					except Exception:  # pylint: disable=broad-except
+						break
+					elements[-1] = self.value(kind['elem'], depth + 1)
 			if kind['sortKey']:
 				elements = self.make_sorted(kind['elem'], kind['sortKey'], elements)
 			self.hit(f'array:{type_name}.{field["name"]}:{"empty" if not elements else "one" if 1 == len(elements) else "many"}')
@@ -253,8 +263,8 @@ class ValueGen:
 			self.hit(f'cond:{type_name}.{field["name"]}:{"present" if present else "absent"}')
 			if present:
 				value = make(field)
-				if cond['viaSelf'] and isinstance(value, dict) and not value['b']:
-					value = {'b': 'AB'}
+				if cond['viaSelf'] and isinstance(value, dict) and self.rng.random() < 0.3:
+					value = {'b': ''}  # present but empty: the member's own truthiness is what serialize() tests
 				values[field['name']] = value
 			else:
 				values[field['name']] = None
